@@ -106,6 +106,35 @@ func patternSource(pat string) string {
 	return b.String()
 }
 
+// deepSource nests n blocks (if/while/for/func bodies and multi-line literals) to exercise the
+// indentation rule at every depth.
+func deepSource(r *rand.Rand, n int) string {
+	var b strings.Builder
+	b.WriteString("x := 0\n")
+	kinds := make([]int, n)
+	for d := 0; d < n; d++ {
+		kinds[d] = r.Intn(3)
+		switch kinds[d] {
+		case 0:
+			fmt.Fprintf(&b, "if x >= 0 // d%d\n", d)
+		case 1:
+			fmt.Fprintf(&b, "for i%d := range 1\n", d)
+		case 2:
+			fmt.Fprintf(&b, "while x < %d\n", d+1)
+		}
+		fmt.Fprintf(&b, "x = x + 1\n")
+	}
+	b.WriteString("arr := [\n1\n[\n2 // c\n3\n]\n]\nm := {\na:1\nb:{\nk:[\n4\n]\n}\n}\nprint arr m\n")
+	for d := n - 1; d >= 0; d-- {
+		if kinds[d] == 1 {
+			fmt.Fprintf(&b, "x = x + i%d\n", d)
+		}
+		b.WriteString("end\n")
+	}
+	b.WriteString("print x\n")
+	return b.String()
+}
+
 func c07Run(c *core.Ctx, i int) {
 	p := c.State.(*srcPool)
 	maxLen := 4
@@ -118,6 +147,10 @@ func c07Run(c *core.Ctx, i int) {
 		pat := runPattern(i, maxLen)
 		src, origin = patternSource(pat), "run-pattern"
 		c.Cover("pattern-length", fmt.Sprint(len(pat)))
+	} else if (i-np)%40 == 7 {
+		depth := 1 + ((i-np)/40)%16
+		src, origin = deepSource(c.Rng, depth), "deep-nesting"
+		c.Cover("nesting-depth", fmt.Sprint(depth))
 	} else {
 		src, origin = pickSource(c, p, i-np)
 	}
@@ -238,6 +271,36 @@ func c07CLI(c *core.Ctx, src, f string) {
 		}
 	}
 	os.Remove(path)
+	// several files: --check must fail if any of them is not formatted, whatever the order
+	if src != f {
+		good, bad := filepath.Join(c.Tmp, "c07good.evy"), filepath.Join(c.Tmp, "c07bad.evy")
+		_ = os.WriteFile(good, []byte(f), 0o644)
+		_ = os.WriteFile(bad, []byte(src), 0o644)
+		for _, args := range [][]string{{good, bad}, {bad, good}, {good, bad, good}, {good, good}} {
+			_, errOut, code, err := evyCmd(c, "", append([]string{"fmt", "-c"}, args...)...)
+			if err != nil {
+				c.Inconclusive("evy fmt -c multi: " + err.Error())
+				break
+			}
+			c.Event("cli_multi_file_checks", 1)
+			anyBad := false
+			for _, a := range args {
+				if a == bad {
+					anyBad = true
+				}
+			}
+			if (code == 0) == anyBad {
+				names := make([]string, len(args))
+				for k, a := range args {
+					names[k] = filepath.Base(a)
+				}
+				c.Violation("check-wrong-verdict-multi", fmt.Sprintf("evy fmt -c %v exits %d (%s) although unformatted-file-present=%v", names, code, firstN(errOut, 120), anyBad), src, nil)
+				break
+			}
+		}
+		os.Remove(good)
+		os.Remove(bad)
+	}
 }
 
 // wsVariant changes only the amount of optional horizontal whitespace and the length of
